@@ -364,7 +364,7 @@ impl Engine for InstrEngine {
         if p.is_async {
             // a second instrumented async pair to interleave with
             if rng.chance(1, 2) {
-                let cands: Vec<usize> = (0..PAIRS.len()).filter(|i| PAIRS[*i].is_async && *i != pair && !PAIRS[*i].attrs.contains("skip_all")).collect();
+                let cands: Vec<usize> = (0..PAIRS.len()).filter(|i| PAIRS[*i].is_async && *i != pair).collect();
                 if !cands.is_empty() {
                     second = json!({"pair": *rng.pick(&cands), "inputs": gen_inp(&mut rng)});
                 }
